@@ -276,6 +276,16 @@ def register(R):
           'IndexError': ['self._iterator_queue.ignore_error and self._iterator_queue._exception is not None']},
       bounded='bounded_queue_sequences'))
 
+  R.add(Contract(
+      f'{ITER}::DequeueIterator.maybe_stop', PROPS, types=dict(self='DequeueIterator'),
+      modifies=[m.replace('self.', 'self._iterator_queue.') for m in SHARED],
+      requires=[c for c in DQ if '_run_until' not in c and '_cnt' not in c],
+      # stopping the consumer side ALWAYS stops the producers and wakes every blocked producer and consumer,
+      # also when the producers were already done (others may still be blocked in put())
+      ensures=['enq_done(self._iterator_queue)', 'notified_all(self._iterator_queue._enqueue_lock)',
+               'notified_all(self._iterator_queue._dequeue_lock)'],
+      bounded='bounded_queue_threads'))
+
   R.cls('MultiplexIterator', dict(_iterator='iter[obj]', _thread_pool='obj?', _name='str'))
 
   @R.spec
